@@ -210,3 +210,21 @@ Proof.
   intros H. split; [|apply lin_other_node; exact H].
   destruct (tab_shape p0 pb l1 l2) as [p1 [r [Et _]]]. rewrite Et. apply lin_first_node.
 Qed.
+
+(* right of the table (and at the last node): clamp, or the last chord prolonged *)
+Theorem lin_right e p0 l1 pb a : increasing (p0 :: l1 ++ [pb]) -> fst pb <= a ->
+  lin_R e (p0 :: l1 ++ [pb]) a = if e then Some (chord (last l1 p0) pb a, slope (last l1 p0) pb) else Some (snd pb, 0).
+Proof.
+  intros Hinc Ha.
+  assert (H0 : fst p0 < fst pb) by (apply (increasing_before_last p0 l1 pb Hinc)).
+  assert (Hlin : lin_R e (p0 :: l1 ++ [pb]) a =
+                 if Rleb (fst (snd (last2_R p0 (l1 ++ [pb])))) a
+                 then (if e then Some (interp2_R a (fst (last2_R p0 (l1 ++ [pb]))) (snd (last2_R p0 (l1 ++ [pb]))))
+                       else Some (snd (snd (last2_R p0 (l1 ++ [pb]))), 0))
+                 else Some (interp2_R a (fst (seg_R a p0 (l1 ++ [pb]))) (snd (seg_R a p0 (l1 ++ [pb]))))).
+  { destruct (tab_shape p0 pb l1 []) as [p1 [r [Et Er]]]. rewrite Et, <- Er. unfold lin_R, lin.
+    assert (E0 : Rleb a (fst p0) = false) by (apply Rleb_false; lra). rewrite E0. reflexivity. }
+  rewrite Hlin, last2_spec. cbn [fst snd].
+  assert (E1 : Rleb (fst pb) a = true) by (apply Rleb_true; lra). rewrite E1.
+  destruct e; [rewrite interp2_chord|]; reflexivity.
+Qed.
